@@ -32,6 +32,9 @@ import (
 // ModuleStores are the four goat module stores compared by "state unchanged" oracles.
 var ModuleStores = []string{"relayer", "bitcoin", "locking", "goat"}
 
+// MempoolMaxTxs is the application mempool size of new nodes (cmd/goatd configures 10).
+var MempoolMaxTxs = 10
+
 type appOpts map[string]interface{}
 
 func (m appOpts) Get(k string) interface{} { return m[k] }
@@ -93,7 +96,7 @@ func NewNode(db dbm.DB, eng *Engine, valIdx int, chainID string) (n *Node, err e
 	}
 	// the node binary installs the sender-nonce mempool (server.DefaultBaseappOptions,
 	// mempool.max-txs = 10 in cmd/goatd); a fixed seed keeps runs reproducible
-	mp := mempool.NewSenderNonceMempool(mempool.SenderNonceMaxTxOpt(10), mempool.SenderNonceSeedOpt(7))
+	mp := mempool.NewSenderNonceMempool(mempool.SenderNonceMaxTxOpt(MempoolMaxTxs), mempool.SenderNonceSeedOpt(7))
 	a, err := app.New(log.NewNopLogger(), db, nil, true, opts, baseapp.SetChainID(chainID), baseapp.SetMempool(mp))
 	if err != nil {
 		return nil, err
